@@ -495,7 +495,7 @@ func checkC06(p *Program, r *Report) {
 			}
 		}
 	}
-	r.Floor("C06.R5", nParse, 4)
+	r.Floor("C06.R5", nParse, 2)
 	// ... and what is parsed is the string as it is: the text handed to ParseInt / ParseFloat is the operand's own String(),
 	// not an edited copy (trimmed, lower-cased, with separators removed): an edited copy makes strings that are not numerals
 	// equal to numbers
@@ -519,6 +519,38 @@ func checkC06(p *Program, r *Report) {
 					arg = sv
 				}
 				ac, isCall := arg.(*ssa.Call)
+				if prm, isPrm := arg.(*ssa.Parameter); isPrm && !isCall {
+					// a helper that is handed the text: every caller in the package hands it the operand's own String()
+					idx, sites, all := -1, 0, true
+					for i, q := range fn.Params {
+						if q == prm {
+							idx = i
+						}
+					}
+					for _, f2 := range m.fns {
+						for _, b2 := range f2.Blocks {
+							for _, in2 := range b2.Instrs {
+								c2, ok := in2.(*ssa.Call)
+								if !ok || staticCallee(c2) != fn || idx < 0 || idx >= len(c2.Call.Args) {
+									continue
+								}
+								sites++
+								a2 := c2.Call.Args[idx]
+								if sv := spilledValue(a2); sv != nil {
+									a2 = sv
+								}
+								if cc, ok := a2.(*ssa.Call); !ok || reflectMethod(cc) != "String" {
+									all = false
+								}
+							}
+						}
+					}
+					if sites > 0 && all {
+						nText += sites - 1 // one numeral reader shared by its callers stands for each of them
+						r.OK("C06.R5", fmt.Sprintf("%s|%s #%d parses the operand's own text", funcName(fn), o.Name(), perFn[fn]), p.Pos(c.Pos()), fmt.Sprintf("the text is a parameter that all %d callers fill with reflect.Value.String() of the operand", sites))
+						continue
+					}
+				}
 				r.Check(isCall && reflectMethod(ac) == "String", "C06.R5", fmt.Sprintf("%s|%s #%d parses the operand's own text", funcName(fn), o.Name(), perFn[fn]), p.Pos(c.Pos()),
 					"the argument is reflect.Value.String() of the operand", "the text handed to strconv."+o.Name()+" is not the operand's own string but something computed from it: strings that are not numerals (padded, re-cased, ...) become equal to numbers")
 			}
